@@ -192,8 +192,17 @@ func freshValue(prefix string, t types.Type) Value {
 // registry of the SMT sort behind every heap key ever generated
 var keySortReg = map[string]*Sort{}
 
+// kind / Go type of the scalar stored behind a key (for type facts about heap contents)
+var keyCompReg = map[string]Comp{}
+
 func regKey(k string, s *Sort) string {
 	keySortReg[k] = s
+	return k
+}
+
+func regKeyC(k string, s *Sort, c Comp) string {
+	keySortReg[k] = s
+	keyCompReg[k] = c
 	return k
 }
 
@@ -208,7 +217,7 @@ func refKeys(t types.Type) []string {
 		for i := 0; i < st.NumFields(); i++ {
 			l := layout(st.Field(i).Type())
 			for j := range l {
-				out = append(out, regKey(fmt.Sprintf("F:%s.%s#%d", name, st.Field(i).Name(), j), ArraySort(IntSort, l[j].Sort)))
+				out = append(out, regKeyC(fmt.Sprintf("F:%s.%s#%d", name, st.Field(i).Name(), j), ArraySort(IntSort, l[j].Sort), l[j]))
 			}
 		}
 		return out
@@ -216,7 +225,7 @@ func refKeys(t types.Type) []string {
 	l := layout(t)
 	out := make([]string, len(l))
 	for j := range l {
-		out[j] = regKey(fmt.Sprintf("C:%s#%d", typeStr(t), j), ArraySort(IntSort, l[j].Sort))
+		out[j] = regKeyC(fmt.Sprintf("C:%s#%d", typeStr(t), j), ArraySort(IntSort, l[j].Sort), l[j])
 	}
 	return out
 }
@@ -225,7 +234,7 @@ func elemKeys(t types.Type) []string {
 	l := layout(t)
 	out := make([]string, len(l))
 	for j := range l {
-		out[j] = regKey(fmt.Sprintf("E:%s#%d", typeStr(t), j), ArraySort(IntSort, ArraySort(IntSort, l[j].Sort)))
+		out[j] = regKeyC(fmt.Sprintf("E:%s#%d", typeStr(t), j), ArraySort(IntSort, ArraySort(IntSort, l[j].Sort)), l[j])
 	}
 	return out
 }
@@ -235,7 +244,7 @@ func globalKeys(g *ssa.Global) []string {
 	l := layout(t)
 	out := make([]string, len(l))
 	for j := range l {
-		out[j] = regKey(fmt.Sprintf("G:%s.%s#%d", g.Pkg.Pkg.Name(), g.Name(), j), l[j].Sort)
+		out[j] = regKeyC(fmt.Sprintf("G:%s.%s#%d", g.Pkg.Pkg.Name(), g.Name(), j), l[j].Sort, l[j])
 	}
 	return out
 }
@@ -255,7 +264,7 @@ func mapKeys(m *types.Map) (dom string, ln string, vals []string) {
 	regKey(ln, ArraySort(IntSort, IntSort))
 	l := layout(m.Elem())
 	for j := range l {
-		vals = append(vals, regKey(fmt.Sprintf("MV:%s#%d", base, j), ArraySort(IntSort, ArraySort(ks, l[j].Sort))))
+		vals = append(vals, regKeyC(fmt.Sprintf("MV:%s#%d", base, j), ArraySort(IntSort, ArraySort(ks, l[j].Sort)), l[j]))
 	}
 	return
 }
@@ -347,4 +356,33 @@ func TMod(a, b *Term) *Term {
 
 func ConstArray(s *Sort, v *Term) *Term {
 	return TS.intern(&Term{Op: "constarr", Args: []*Term{v}, Sort: s})
+}
+
+// heap array constants (initial or havocked) with the watermark that bounds the references they hold
+type heapConstInfo struct {
+	comp Comp
+	wm   *Term
+}
+
+var heapConsts = map[*Term]heapConstInfo{}
+
+func regHeapConst(t *Term, key string, wm *Term) {
+	if c, ok := keyCompReg[key]; ok && wm != nil {
+		switch c.Kind {
+		case "ref", "sbase", "int", "slen", "soff":
+			heapConsts[t] = heapConstInfo{c, wm}
+		}
+	}
+}
+
+func scalarFact(c Comp, t *Term, wm *Term) *Term {
+	switch c.Kind {
+	case "ref", "sbase":
+		return And(Ge(t, IntLit(0)), Le(t, wm))
+	case "int":
+		return inRange(t, c.GoT)
+	case "slen", "soff":
+		return Ge(t, IntLit(0))
+	}
+	return True
 }
